@@ -235,7 +235,7 @@ CLAIMED = {
    technique="Lean 4 proof (bearer decision iff) + differential correspondence + independent RFC 9068 oracle",
    design="§5 C10"),
  "C04": dict(
-   text="Lean 4 theorem validate_ok_iff_conforms: for every claim dictionary, option dictionary, now and leeway, JWTClaims.validate (Model/Claims.lean, "
+   text="Covers the base class AND the derived claim sets (OpenID Connect Code / Implicit / Hybrid ID Token classes via Model/IdToken, RFC 9068 access-token claims via Model/JwtAccessToken — theorems in Props/C13 and Props/C10Jwt — with typed pools for nonce, azp, auth_time, amr, typ compared against the real classes and an independent rule set). Lean 4 theorem validate_ok_iff_conforms: for every claim dictionary, option dictionary, now and leeway, JWTClaims.validate (Model/Claims.lean, "
         "mirroring rfc7519/claims.py branch by branch) raises nothing iff the claims satisfy the property statement transcribed as the structure Conforms; "
         "error_names_violated_constraint + violates_not_conforms; corollaries for expired / not-yet-valid / boolean time / wrong iss, sub, aud. "
         "Model tied to the code by a correspondence run (exhaustive single-claim×single-option pools + seeded random dictionaries) and an independent "
